@@ -90,6 +90,15 @@ class Explorer:
             return True
         return r == z3.sat
 
+    def pick_value(self, term):
+        s = z3.Solver()
+        s.set("timeout", self.feas_timeout_ms)
+        s.add(*_abstract_array_predicates(list(self.pc) + list(self.assumptions)))
+        if s.check() != z3.sat:
+            return None
+        v = s.model().eval(term, model_completion=True)
+        return v.as_long() if z3.is_int_value(v) else None
+
     def decide(self, cond) -> bool:
         cond = z3.simplify(cond)
         if z3.is_true(cond):
@@ -443,7 +452,15 @@ class SymInt(Sym):
         v = z3.simplify(self.t)
         if z3.is_int_value(v):
             return v.as_long()
-        raise ShadowAbort(f"symbolic int {self.t} used as a concrete index")
+        # concretise by case split: pick a feasible value m, fork on (self == m); terminates for finite domains
+        ex = _ex()
+        for _ in range(64):
+            m = ex.pick_value(self.t)
+            if m is None:
+                raise Infeasible()
+            if ex.decide(self.t == m):
+                return m
+        raise ShadowAbort(f"symbolic int {self.t} used as a concrete index (domain not small)")
 
     __int__ = __index__
 
